@@ -967,11 +967,14 @@ def check_C05(ctx):
             lines.append(f"parse {ent['mode']} 1 1 {canon.hx(g)}")
             meta.append((kind, ent, f, g))
         # VALNONE with corrupted checksum parses to the same attributes
-        for ck in (b"\x00\x00", bytes([f[-2] ^ 0xFF, f[-1]]), bytes(rng.getrandbits(8) for _ in range(2))):
-            lines.append(f"parse {ent['mode']} 0 1 {canon.hx(f[:-2] + ck)}")
-            meta.append(("valnone", ent, f, f[:-2] + ck))
-        lines.append(f"parse {ent['mode']} 0 1 {canon.hx(f)}")
-        meta.append(("valnone-ref", ent, f, f))
+        # … whatever the way the mode is given: SETPOLL (3) resolves SET / POLL frames itself
+        for md in ([ent["mode"], 3] if ent["mode"] in (1, 2) else [ent["mode"]]):
+            e2 = dict(ent, mode=md)
+            for ck in (b"\x00\x00", bytes([f[-2] ^ 0xFF, f[-1]]), bytes(rng.getrandbits(8) for _ in range(2))):
+                lines.append(f"parse {md} 0 1 {canon.hx(f[:-2] + ck)}")
+                meta.append(("valnone", e2, f, f[:-2] + ck))
+            lines.append(f"parse {md} 0 1 {canon.hx(f)}")
+            meta.append(("valnone-ref", e2, f, f))
     # well-formed frames on length boundaries: must never be rejected with UBXParseError
     for mode, c, i, pl in strata_frames(ctx):
         f = gen.frame(c, i, pl)
@@ -1050,7 +1053,7 @@ def check_C05(ctx):
     for (kind, ent, f, g), a, l in zip(meta, py, lines):
         res.hist[kind + (":accepted" if a.startswith("ok ") else ":" + a[4:])] += 1
         if kind == "valnone-ref":
-            ref[f] = attrs_of(a) if a.startswith("ok ") else a
+            ref[(f, ent["mode"])] = attrs_of(a) if a.startswith("ok ") else a
             continue
         if kind == "valnone":
             continue
@@ -1070,7 +1073,7 @@ def check_C05(ctx):
     for (kind, ent, f, g), a, l in zip(meta, py, lines):
         if kind == "valnone":
             got = attrs_of(a) if a.startswith("ok ") else a
-            if got != ref.get(f):
+            if got != ref.get((f, ent["mode"])):
                 res.finding("class=valnone-differs", "with VALNONE a corrupted checksum changes the parsed attributes", dict(op=l))
     return res.finish("distinct corrupted inputs accepted by parse (must all be well-formed); every substitution/insertion/deletion/truncation/burst of sample frames + all strings ≤ L over {b5,62,00,01,06,ff}", samples)
 
@@ -2880,9 +2883,10 @@ def check_C17(ctx):
                 continue
             f = gen.frame(ent["cls"], ent["id"], lay.payload)
             bf = rng.choice([0, 1])
-            lines.append(f"parse 3 1 {bf} {f.hex()}")
+            val = rng.choice([1, 1, 0])       # the mode is resolved the same way whether or not the frame is validated
+            lines.append(f"parse 3 {val} {bf} {f.hex()}")
             meta.append((ent, lay, "setpoll"))
-            lines.append(f"parse {ent['mode']} 1 {bf} {f.hex()}")
+            lines.append(f"parse {ent['mode']} {val} {bf} {f.hex()}")
             meta.append((ent, lay, "true"))
     # conforming payloads whose length sits on a byte boundary of the length field (256, 512, 768 bytes)
     class _L:  # minimal stand-in for a Layout: only the payload is used below
@@ -2929,7 +2933,8 @@ def check_C17(ctx):
             expect.append((ent, f))
         stream = b"".join(parts)
         try:
-            got = [(raw, parsed) for raw, parsed in UBXReader(io.BytesIO(stream), msgmode=3, quitonerror=0, protfilter=rng.choice([7, 7, 3, 6, 2]))
+            sval = rng.choice([1, 1, 0])
+            got = [(raw, parsed) for raw, parsed in UBXReader(io.BytesIO(stream), msgmode=3, quitonerror=0, validate=sval, protfilter=rng.choice([7, 7, 3, 6, 2]))
                    if raw[:1] == b"\xb5"]
         except Exception as e:  # noqa
             res.finding(f"class=setpoll-stream-raises-{canon.excname(e)}", "reading a stream of generated SET/POLL frames with msgmode=SETPOLL raised", dict(stream=stream.hex()[:4000]))
@@ -2938,7 +2943,7 @@ def check_C17(ctx):
         want = []
         for ent, f in expect:
             try:
-                want.append((f, canon.msgdump(UBXReader.parse(f, msgmode=ent["mode"]))))
+                want.append((f, canon.msgdump(UBXReader.parse(f, msgmode=ent["mode"], validate=sval))))
             except Exception:  # noqa
                 want.append((f, None))
         have = [(raw, canon.msgdump(p) if p is not None else None) for raw, p in got]
